@@ -14,7 +14,7 @@ import (
 // knownScanKinds lists the scan kinds runScan implements; the contract parser rejects every other word (an unknown
 // kind used to fall through to the writer scan, which found no writer and reported the obligation as discharged).
 var knownScanKinds = map[string]bool{"maprange": true, "gostmts": true, "recoverguard": true, "typekeys": true, "defercalls": true,
-	"assertorder": true, "extcalls": true, "pkgglobals": true, "fieldwriters": true, "globalwriters": true, "structfields": true, "recursive": true, "armeffects": true, "armcalls": true, "pkgvars": true}
+	"assertorder": true, "extcalls": true, "pkgglobals": true, "fieldwriters": true, "globalwriters": true, "structfields": true, "recursive": true, "armeffects": true, "armcalls": true, "pkgvars": true, "recoversites": true}
 
 // runScan evaluates one syntactic obligation over the SSA of its package.
 func (p *Program) runScan(sc *Scan) *UnitResult {
@@ -135,6 +135,61 @@ func (p *Program) runScan(sc *Scan) *UnitResult {
 	if !knownScanKinds[sc.Kind] {
 		o.Status = "sat"
 		o.Output = "unknown scan kind " + sc.Kind
+		return res
+	}
+	if sc.Kind == "recoversites" {
+		// recoversites <pkg>: f1 f2 ... - the functions (and function literals, named <function>$<literal>) of the
+		// package that call the builtin recover() are exactly the listed ones. Which panics are turned into errors, and
+		// where, is part of the argument that no panic reaches the host AND that a panic ends the evaluation it happened
+		// in (the VM's unwinding restores its registers only on the paths the contracts cover).
+		have := map[string]bool{}
+		for key, fn := range p.fnByKey {
+			if fn.Pkg == nil || fn.Pkg.Pkg.Path() != sc.Pkg {
+				continue
+			}
+			base := strings.TrimPrefix(shortKey(key), fn.Pkg.Pkg.Name()+".")
+			var visit func(f *ssa.Function, nm string)
+			visit = func(f *ssa.Function, nm string) {
+				for _, b := range f.Blocks {
+					for _, in := range b.Instrs {
+						if c, ok := in.(*ssa.Call); ok {
+							if bi, ok := c.Call.Value.(*ssa.Builtin); ok && bi.Name() == "recover" {
+								have[nm] = true
+							}
+						}
+					}
+				}
+				for _, a := range f.AnonFuncs {
+					visit(a, nm+"$"+a.Name())
+				}
+			}
+			visit(fn, base)
+		}
+		for n := range have {
+			if !allowed[n] {
+				offenders = append(offenders, n)
+			}
+		}
+		sort.Strings(offenders)
+		var stale []string
+		for _, a := range sc.Allowed {
+			if !have[a] {
+				stale = append(stale, a)
+			}
+		}
+		if len(offenders) == 0 && len(stale) == 0 {
+			o.Status = "unsat"
+			o.Output = fmt.Sprintf("the %d functions of %s that call recover() are the listed ones", len(have), sc.Pkg)
+		} else {
+			o.Status = "sat"
+			o.Output = ""
+			if len(offenders) > 0 {
+				o.Output = "recover() called in functions without a recorded disposition: " + strings.Join(offenders, ", ")
+			}
+			if len(stale) > 0 {
+				o.Output += " listed but no longer recovering: " + strings.Join(stale, ", ")
+			}
+		}
 		return res
 	}
 	if sc.Kind == "pkgvars" {
